@@ -47,6 +47,15 @@ CHECKS = {
         'note': _NOTE + ' Integer frequency lattice in units of c/12um; SED grid nodes even so that bin edges are lattice points.',
         'technique': 'TLA+ spec (exact integrals) + TLC exhaustive theorems; spec->code replay in all storage orders and through filter files; trace validation',
     },
+    'C07': {
+        'text': 'Package.tla: a package of 3 models (6 parameter-table orders x 6 directory-listing / cube orders x 2^3 stored spectral orders x per-file | cube x 1 | 2 apertures) convolved with 2 filters; the algorithm layer is the code\'s '
+                '(rows in listing order, order_to_match re-ordering to the table; cube rows in cube order, refused when cube and table orders differ), expected fluxes and squared errors come from RebinOps exactly.  TLC checks RowsLabelledRight, '
+                'OrderFollowsTable, CubeRefusesMismatch, CellsDistinct on all 2304 packages.  Replay builds each sampled package for real (SED files via SED.write and as raw FITS per the docs, cube via SEDCube.write), runs convolve_model_dir with both '
+                'filters at once, reads every convolved file (row names/order, FILTWAV, apertures, flux and error per aperture to 2e-6) and fits a source with every variant, memmap on and off, requiring agreement between variants.',
+        'ref': 'DESIGN.md section 6 C07',
+        'note': _NOTE + ' This check also decides the end-to-end half of C06 (flux = sum F R, errors in quadrature).',
+        'technique': 'TLA+ spec (order_to_match permutation algebra + exact convolution) + TLC exhaustive; replay through convolve_model_dir on real packages of both formats',
+    },
     'C10': {
         'text': 'FitSession.tla is the main machine: the data file written line by line, fit() as the code\'s loop (ReadLine -> skip | FitKeep -> AppendRec, a line with < 3 columns ends the input), '
                 'reading the file back, post-processing calls (3 functions x file | object | list input x selectors) and filter_output; fits come from FitKernel, selection from Select.  TLC checks '
